@@ -2,7 +2,7 @@
    `valid b` = every allocation points at an existing attribute.  In every theorem about release the list p is the
    de-duplicated request in ANY processing order (Go map iteration order is universally quantified). *)
 From Coq Require Import List NArith ZArith Bool Arith.
-From Verif.C21 Require Import Model Spec Proofs ProofsRelease ProofsHist ProofsInv ProofsCool ProofsClient ProofsClient2.
+From Verif.C21 Require Import Model Spec Proofs ProofsRelease ProofsHist ProofsInv ProofsCool ProofsClient ProofsClient2 ProofsSpec.
 Import ListNotations.
 
 (* A release naming a stale sequence number never frees the address: the whole request (for that block) fails with
@@ -216,14 +216,32 @@ Theorem c21_client_by_handle_exact : forall cd t blks st h j b,
 Proof. exact rbh_client_exact. Qed.
 Print Assumptions c21_client_by_handle_exact.
 
-(* PARTIAL model-meets-spec: of the oracle's clauses, the model is proved to satisfy (wf: Unallocated lists only free
-   ordinals, no duplicates, indices in range) = inv, (cool) = c21_cooldown / txn_keeps_cooling, (seq: +1 per write) =
-   c21_seq_strictly_monotone, (auth) for release = c21_release_only_named, (rej) = c21_stale_seq_rejected /
-   c21_wrong_handle_rejected, (idem) = c21_release_idempotent, (byh) = c21_by_handle_exact.  NOT proved: the boolean
-   statement  ok_step (model run) = true  itself (it additionally needs the per-ordinal state and sequence number after
-   autoAssign / assign, the exact FIFO equation through release's two GC passes, and "every free ordinal is queued").
-   Stated here: the clauses (wf) and (cool) for one transaction in the form the oracle checks them. *)
-Theorem c21_model_meets_spec_partial : forall cd t b op o r, inv b ->
+(* Model meets spec, block stream: the strong invariant winv (inv + every free ordinal is queued, queued ordinals are in
+   range, free ordinals carry no sequence number) holds of a new block, and for every block satisfying it, every clock
+   reading and cooldown setting, the oracle's ok_step (ALL its clauses: wf, auth, cool, fifo, result, seq) accepts the
+   model's step and the invariant is preserved - for autoAssign (any reserved set), assign (success, already-allocated,
+   out of range), releaseByHandle (with and without sequence number), garbageCollect and the datastore round trip.
+   PARTIAL, missing: (1) the same for BRelease: its state / fifo / seq clauses follow from gc_like_step with
+   b1 = mark_released (as for releaseByHandle); what is not done is the reflection  existsb req_bad = true <-> scan
+   returns inr  and the equality of the "not allocated" lists; (2) folding the per-step statement and hist_ok over a whole
+   run (block_oracle (new_block ..) [] (model run) = true; invariant: every entry of hist <= bk_seq); (3) the transaction
+   form (ok_step true for txn, slot_ok for cstep).  For transactions the clauses (wf) and (cool) are proved:
+   c21_inv_preserved, c21_cooldown, and below. *)
+Theorem c21_model_meets_spec_partial : forall cd t pb op, winv pb ->
+  (forall size seq0, winv (new_block size seq0)) /\ (match op with BRelease _ => True | _ => step_ok cd t pb op end).
+Proof.
+  intros cd t pb op W. split; [intros; apply winv_new|].
+  destruct op; auto.
+  - apply step_auto; auto.
+  - apply step_assign; auto.
+  - apply step_rbh; auto.
+  - apply step_gc; auto.
+  - apply step_persist; auto.
+Qed.
+Print Assumptions c21_model_meets_spec_partial.
+
+(* one transaction keeps the weak invariant and the cooldown clause in the form the oracle checks it *)
+Theorem c21_txn_meets_cool_clause : forall cd t b op o r, inv b ->
   inv (txn_block cd t b op) /\
   (state_of b o = Cooling r -> cooled cd t r = false ->
    state_of (txn_block cd t b op) o = Cooling r \/ state_of (txn_block cd t b op) o = Cooling (trunc_s r)).
@@ -233,7 +251,7 @@ Proof.
   - auto.
   - right. rewrite state_persist, (op_keeps_cooling cd t b op o r I ST NC). auto.
 Qed.
-Print Assumptions c21_model_meets_spec_partial.
+Print Assumptions c21_txn_meets_cool_clause.
 
 (* the hypotheses are satisfiable: allocate, release (cooldown 1s), time passes, reallocate the same ordinal *)
 Example c21_aba_example :
